@@ -189,6 +189,7 @@ func genC06(cs *CaseSet, rng *Rng, tier string, dir string) {
 		nc     *nullConn
 		ip     string
 		status int
+		by     []*nullConn // bystanders: connected while the request is made, not its target
 	}
 	var pend []pending
 	disc := func(kind string, reqAcc, tgtAcc hotline.AccessBitmap, opt []byte) {
@@ -220,7 +221,55 @@ func genC06(cs *CaseSet, rng *Rng, tier string, dir string) {
 				NonTrivial: reqAcc != tgtAcc},
 			nc: tnc, ip: ip, status: status})
 	}
+	// the same request while two more users are connected: one from the target's own address, one from elsewhere
+	discBy := func(kind string, reqAcc, tgtAcc, by1, by2 hotline.AccessBitmap, opt []byte) {
+		serial++
+		ip := fmt.Sprintf("10.%d.%d.%d", 1+serial/65536, (serial/256)%256, serial%256)
+		admin, _ := env.NewClient("guest", reqAcc, "10.9.9.8:1")
+		target, tnc := env.NewClient("guest", tgtAcc, ip+":5500")
+		_, b1c := env.NewClient("guest", by1, ip+":5501")
+		serial++
+		ip2 := fmt.Sprintf("10.%d.%d.%d", 1+serial/65536, (serial/256)%256, serial%256)
+		_, b2c := env.NewClient("guest", by2, ip2+":5502")
+		fields := []hotline.Field{hotline.NewField(hotline.FieldUserID, target.ID[:])}
+		if opt != nil {
+			fields = append(fields, hotline.NewField(hotline.FieldOptions, opt))
+		}
+		t := hotline.NewTransaction(hotline.TranDisconnectUser, admin.ID, fields...)
+		res, panicked := callHandler(mobius.HandleDisconnectUser, admin, &t)
+		status := c06OtherErr
+		switch {
+		case panicked:
+			status = c06Panic
+		case isErrReply(res) && errText(res) == "guest is not allowed to be disconnected.":
+			status = c06Denied
+		case isErrReply(res):
+			status = c06OtherErr
+		case len(res) >= 1 && res[len(res)-1].IsReply == 1:
+			status = c06Created
+		}
+		env.Srv.ClientMgr.Delete(admin.ID)
+		pend = append(pend, pending{
+			c: Case{Kind: kind,
+				Ops:        []Op{mkOp(4, "DisconnectUser-with-bystanders", reqAcc[:], tgtAcc[:], opt, b1(opt == nil), by1[:], by2[:])},
+				NonTrivial: reqAcc != tgtAcc},
+			nc: tnc, ip: ip, status: status, by: []*nullConn{b1c, b2c}})
+	}
 	opts := [][]byte{nil, {0, 1}, {0, 2}, {0, 0}, {0, 3}}
+	for k := 0; k < 40; k++ {
+		var ta, b1a, b2a hotline.AccessBitmap
+		copy(ta[:], rng.Bytes(8))
+		copy(b1a[:], rng.Bytes(8))
+		copy(b2a[:], rng.Bytes(8))
+		ta[2] &^= 1 // the target itself is not protected ...
+		if k%4 != 3 {
+			b1a.Set(23) // ... the user sharing its address mostly is
+		}
+		if k%2 == 0 {
+			b2a.Set(23)
+		}
+		discBy("bystanders", bitmapOf(22), ta, b1a, b2a, opts[k%3])
+	}
 	for i := 0; i < 64; i++ { // target holds exactly bit i; requester is an admin (22) with/without 23
 		for oi, o := range opts {
 			if tier == "quick" && oi >= 3 && i%8 != 0 {
@@ -286,6 +335,13 @@ func genC06(cs *CaseSet, rng *Rng, tier string, dir string) {
 			closed = 1
 		}
 		p.c.Obs = [][][]byte{{{byte(p.status)}, {mem}, {disk}, {closed}}}
+		for _, b := range p.by {
+			c := byte(0)
+			if b.Closed() {
+				c = 1
+			}
+			p.c.Obs[0] = append(p.c.Obs[0], []byte{c})
+		}
 		cs.Add(p.c)
 	}
 }
